@@ -1,3 +1,7 @@
+/-
+C06 — scalar multiplication over an abstract correct operation table: `EcOps.Correct`, the table of odd
+multiples (`preTable_ok`), `nafApply_spec`, `mulLoop_spec` (Horner), `mulCore_spec` (= `ecMulA` at any width ≥ 2).
+-/
 import Bee2V.C06.LemmasNafTerm
 import Mathlib.Algebra.Module.Basic
 import Mathlib.Tactic.Abel
